@@ -413,7 +413,11 @@ fn replay_one(case: &Value, iota: bool, rot: usize) -> Result<Vec<(String, Value
     c.faults = arr(&case["faults"]).iter().map(|f| s(f).to_string()).collect();
   }
   let opname = s(&case["op"]["name"]);
-  let target = doc.target();
+  let mut target = doc.target();
+  if case["op"]["form"] == json!("query") {
+    // same DID and fragment, but a URL query: resolves like the target, is a different DID URL
+    target.set_query(Some("versionId=1")).map_err(|e| e.to_string())?;
+  }
   let class = if opname == "generate" {
     let r = block_on(doc.generate(&w.storage, TARGET, scope_of(s(&case["op"]["scope"]), rot)));
     result_class(&r)
@@ -448,25 +452,34 @@ fn replay_one(case: &Value, iota: bool, rot: usize) -> Result<Vec<(String, Value
   if dn_alive {
     kids.push("dN");
   }
-  let calls: Vec<Value> = log.iter().map(|(n, f)| json!({"name": n, "failed": f})).collect();
+  let calls: Vec<Value> = calls_json(&log);
   let observed = json!({"result": class, "calls": calls,
     "post": {"doc": post_abs, "keys": keys, "kids": kids}});
   let expected = json!({"result": case["result"], "calls": case["calls"],
     "post": {"doc": norm_abs(&case["post"]["doc"]), "keys": sorted_strs(&case["post"]["keys"]).iter().rev().collect::<Vec<_>>(),
              "kids": sorted_strs(&case["post"]["kids"]).iter().rev().collect::<Vec<_>>()}});
-  if observed != expected {
-    diffs.push(("outcome".to_string(), expected, observed));
-  }
+  // The reference spec is code-shaped (call order, state left behind by a failed undo); the PROPERTY is weaker. A deviation
+  // from the reference alone is reported as drift; the verdict comes from the direct statement of the property below.
+  let drift = if observed != expected { Some((expected.clone(), observed.clone())) } else { None };
   // ---- direct statement of the property on the real objects ----
   let total_keys = block_on(w.jwk.count());
   let total_kids = block_on(w.kid.count());
+  let fired = log.iter().filter(|(_, f)| *f).count();
+  let pre_keys = sorted_strs(&case["pre"]["keys"]);
+  let pre_kids = sorted_strs(&case["pre"]["kids"]);
+  let has = |v: &Vec<&str>, x: &str| v.iter().any(|y| *y == x);
+  let has_s = |v: &Vec<String>, x: &str| v.iter().any(|y| y == x);
   match class {
     "err" => {
       if doc.normalised() != pre_norm {
         diffs.push(("err_changed_document".into(), pre_norm.clone(), doc.normalised()));
       }
-      if total_keys != by_key_count || total_kids != by_kid_count {
-        diffs.push(("err_changed_stores".into(), json!([by_key_count, by_kid_count]), json!([total_keys, total_kids])));
+      if total_keys != by_key_count || total_kids != by_kid_count
+        || has(&keys, "kT") != has_s(&pre_keys, "kT") || has(&kids, "dT") != has_s(&pre_kids, "dT")
+        || has(&keys, "kN") || has(&kids, "dN")
+      {
+        diffs.push(("err_changed_stores".into(), json!({"counts": [by_key_count, by_kid_count], "keys": pre_keys, "kids": pre_kids}),
+          json!({"counts": [total_keys, total_kids], "keys": keys, "kids": kids})));
       }
     }
     "ok" if opname == "generate" => {
@@ -483,13 +496,34 @@ fn replay_one(case: &Value, iota: bool, rot: usize) -> Result<Vec<(String, Value
       if total_keys != by_key_count + 1 || total_kids != by_kid_count + 1 {
         diffs.push(("ok_store_counts".into(), json!([by_key_count + 1, by_kid_count + 1]), json!([total_keys, total_kids])));
       }
-    }
-    "ok" => {
-      if doc.core().resolve_method(TARGET, None).is_some() || total_keys != by_key_count - 1 || total_kids != by_kid_count - 1 {
-        diffs.push(("purge_incomplete".into(), json!("method, key and key id gone"), json!([total_keys, total_kids])));
+      // the pre-existing references to the new id are still there (and now resolve to the new method)
+      let exp_doc = norm_abs(&case["post"]["doc"]);
+      if post_abs != exp_doc {
+        diffs.push(("ok_document".into(), exp_doc, post_abs.clone()));
       }
     }
-    _ => {}
+    "ok" => {
+      // after a purge all three are gone: the method (and the references to it), its key, its key id
+      let absent = post_abs["t"] == json!("absent") && post_abs["refs"].as_array().map(|a| a.is_empty()).unwrap_or(false);
+      if !absent || doc.core().resolve_method(TARGET, None).is_some() || total_keys != by_key_count - 1 || total_kids != by_kid_count - 1
+        || has(&keys, "kT") || has(&kids, "dT")
+      {
+        diffs.push(("purge_incomplete".into(), json!("method, its references, key and key id gone"),
+          json!({"doc": post_abs, "keys": keys, "kids": kids, "counts": [total_keys, total_kids]})));
+      }
+    }
+    "undo_failed" => {
+      // the only exception the property allows -- and only when a storage call really failed
+      if fired == 0 {
+        diffs.push(("undo_failed_without_fault".into(), json!("a failed storage call"), json!(calls_json(&log))));
+      }
+    }
+    other => diffs.push(("result_class".into(), json!("ok | err | undo_failed"), json!(other))),
+  }
+  if diffs.is_empty() {
+    if let Some((e, o)) = drift {
+      diffs.push(("~drift".into(), e, o));
+    }
   }
   // the bystander is never affected
   let by = doc.core().resolve_method(BYSTANDER, None).ok_or("bystander method lost")?;
@@ -499,6 +533,10 @@ fn replay_one(case: &Value, iota: bool, rot: usize) -> Result<Vec<(String, Value
     return Err("bystander key lost".into());
   }
   Ok(diffs)
+}
+
+fn calls_json(log: &[(String, bool)]) -> Vec<Value> {
+  log.iter().map(|(n, f)| json!({"name": n, "failed": f})).collect()
 }
 
 pub fn replay(cases: &[Value], rep: &mut Report) {
@@ -514,6 +552,10 @@ pub fn replay(cases: &[Value], rep: &mut Report) {
         Ok(Err(e)) => rep.mismatch(&format!("storage_txn/{opname}/harness"), &ctx, json!("pre-state constructible, bystander intact"), json!(e), ""),
         Ok(Ok(diffs)) => {
           for (k, exp, obs) in diffs {
+            if k == "~drift" {
+              rep.reference_drift(&format!("storage_txn/{opname}/reference"), &ctx, exp, obs);
+              continue;
+            }
             rep.mismatch(&format!("storage_txn/{opname}/{k}"), &ctx, exp, obs, "all-or-nothing under storage faults");
           }
         }
